@@ -28,6 +28,7 @@ RULE = ("observation = sha1 of the canonical tree (or CLI stdout). Dimensions, e
         "while registries are built (shipped directory and generated directories with equal file names); (4) threads: 8 threads "
         "share one scanner, switch interval 1e-6 and yields injected in the registry wrapper, every result compared with the "
         "single-threaded digest, thread alternations counted; (5) CLI default/--json/stdin under two hash seeds. "
+        "(6) cold start: a never-used scanner is hit by six threads released from a barrier and compared with the warmed-up scanner's tree. "
         "distinct_nontrivial = distinct (dimension, input) pairs whose tree is non-empty.")
 ASSUMPTIONS = ["CPython gives no schedule control: the thread dimension claims only the alternations observed",
                "no data-race detector applies (pure Python, no native code of the project)"]
